@@ -99,7 +99,7 @@ def init_inv(ctx):
     out = []
     for label, kw in (("plain", {}), ("weights", {"weights": "w"}), ("ubm", {"ubm": True}), ("map", {"ubm": True, "trainer": "map"})):
         I = new_interp()
-        F = G.facts(extra_pos_apps={"wgiven"})
+        F = G.facts_inv(G.mk_gmm(I, "0"), G.facts(extra_pos_apps={"wgiven"}), "0")     # the prior satisfies Inv (its variances >= its floors)
 
         def build(kw=kw, I=I):
             k = {}
@@ -120,9 +120,6 @@ def init_inv(ctx):
                 u = build()[1]["ubm"]
                 for fld in ("_means", "_variances", "_weights"):
                     exp = u.fields[fld]
-                    if fld == "_variances":
-                        # copied through the setters: clamped with the (default) floor first, then with the prior's floors
-                        continue
                     V.compare(m.fields[fld], exp, F, "C17.init.%s.%s" % (label, fld), out)
     return collapse(out, "C17.init", "constructor establishes Inv (default weights 1/C, given weights, copy of a prior)")
 
@@ -200,3 +197,4 @@ TRUSTED = ["copy.deepcopy / pickle copy __dict__ field by field (so Inv is carri
            "np.maximum / np.log / sum as in the NumPy model"]
 ASSUMPTIONS = ["arguments of setters are finite arrays of the documented shapes; floors > 0",
                "user code mutating a returned array in place is outside 'public operations'"]
+XCHECK = ['gmm']
